@@ -913,6 +913,10 @@ def state_number_enumerate(
     # do explicit sums over the states.
     state = (0,)*len(dims)
     nexc = 0
+    if not dims:
+        # no mode at all: the empty state is the only one
+        yield state
+        return
     while True:
         yield state
         idx = len(dims) - 1
